@@ -3,6 +3,7 @@ package c02
 import (
 	"fmt"
 	"sort"
+	"testing"
 
 	"pgregory.net/rapid"
 
@@ -70,6 +71,30 @@ func CheckBlocks(a *inssvc.Analysis) error {
 				return fmt.Errorf("%s holds row %q twice (rows %d and %d)", name, r.Marker, j, i)
 			}
 			seen[r.Marker] = i
+		}
+	}
+	// (2b) rows that came through a real parser: every column whose value the body generator
+	// knows (line, value, type, timestamps, names, ids, the raw span payload, tag pairs,
+	// profile arrays) must carry it in every block that holds the row - the request struct
+	// the parser built is not taken at its word
+	for _, rq := range tr.Reqs {
+		if !rq.HTTP {
+			continue
+		}
+		for _, e := range rq.Expect {
+			if len(e.Cols) == 0 {
+				continue
+			}
+			for _, oc := range a.FindAll(e) {
+				row := a.Rows[oc.Call][oc.Row]
+				for col, want := range e.Cols {
+					got, ok := row.Cols[col]
+					if !ok || !inssvc.SameValue(want, got) {
+						return fmt.Errorf("INSERT #%d into %s row %d (%q, http request %d, %s): column %s holds %s, the pushed body says %s",
+							oc.Call.Seq, oc.Call.Table, oc.Row, row.Marker, rq.ID, rq.Proto, col, brief(got), brief(want))
+					}
+				}
+			}
 		}
 	}
 	for _, p := range a.Parts {
@@ -159,6 +184,14 @@ func CheckBlocks(a *inssvc.Analysis) error {
 	return nil
 }
 
+func brief(v any) string {
+	s := fmt.Sprintf("%#v", v)
+	if len(s) > 160 {
+		s = s[:160] + "…"
+	}
+	return s
+}
+
 // o reports whether a part came through a real parser although it could not be attributed
 // to a request (no row matched): never for hand-built requests, whose Tag is always set.
 func o(p *inssvc.Part) bool { return p.ReqID == 0 }
@@ -174,15 +207,29 @@ func Classify(a *inssvc.Analysis, ob *evid.Obs) {
 	}
 	ob.Tag(fmt.Sprintf("workers:%d", tr.H.Cfg.Workers))
 	multi, afterFail, maxRows := false, false, 0
+	tagOnce := map[string]bool{}
 	blocksOf := map[*fakech.Call]int{}
 	for _, p := range a.Parts {
 		for _, b := range p.Blocks {
 			blocksOf[b]++
 		}
 	}
-	for _, n := range blocksOf {
+	for b, n := range blocksOf {
 		if n >= 2 {
 			multi = true
+			if t := "multi-request-block:" + b.Table; !tagOnce[t] {
+				tagOnce[t] = true
+				ob.Tag(t)
+			}
+		}
+	}
+	for _, rq := range tr.Reqs {
+		if rq.HTTP && rq.Proto == "mixed" && len(rq.Expect) > 0 {
+			if rq.Expect[0].Prefix {
+				ob.Tag("mixed-chunk:metric-batch-first")
+			} else {
+				ob.Tag("mixed-chunk:log-batch-first")
+			}
 		}
 	}
 	calls := append([]*fakech.Call(nil), tr.Calls...)
@@ -249,7 +296,7 @@ func addHistory(r *evid.Run) {
 			if r.Tier == "thorough" {
 				max = 60
 			}
-			return inssvc.GenHistory(rt, inssvc.GenOpts{MaxActions: max, HTTP: true, BigRows: true, Refuse: false})
+			return inssvc.GenHistory(rt, inssvc.GenOpts{MaxActions: max, HTTP: true, BigRows: true, Refuse: true})
 		},
 		Pred: func(h inssvc.History, ob *evid.Obs) error {
 			h, known := inssvc.StripKnown(h, ob.Witness)
@@ -268,22 +315,43 @@ func addStress(r *evid.Run, quick, thorough int) {
 	evid.Add(r, evid.Prop[inssvc.Stress]{
 		Name: "stress", Quick: quick, Thorough: thorough,
 		Gen: func(rt *rapid.T) inssvc.Stress { return inssvc.GenStress(rt, 8, 12) },
+		WAL: true,
 		Pred: func(s inssvc.Stress, ob *evid.Obs) error {
-			runs := 1
-			if ob.Witness {
-				runs = 20
-			}
-			for i := 0; i < runs; i++ {
-				tr := inssvc.RunStress(s)
-				a := inssvc.Analyse(tr)
-				if i == 0 {
-					Classify(a, ob)
+			if RaceT != nil {
+				// under the race detector every case runs as a sub-test: a data race reported inside
+				// qryn while the case runs fails that sub-test, and so this case. A schedule in which
+				// the detector fires is one under which none of the guarantees can be relied on; the
+				// unchanged tree is race-free on these paths (the drivers shut down quiescently).
+				var err error
+				ok := RaceT.Run("case", func(*testing.T) { err = stressBody(s, ob) })
+				if err == nil && !ok {
+					return fmt.Errorf("the race detector reported a data race while this stress case ran (report above: \"WARNING: DATA RACE\"): " +
+						"unsynchronised access in the promise / insert-service code during concurrent pushes")
 				}
-				if err := CheckBlocks(a); err != nil {
-					return err
-				}
+				return err
 			}
-			return nil
+			return stressBody(s, ob)
 		},
 	})
+}
+
+// RaceT is set by TestRace.
+var RaceT *testing.T
+
+func stressBody(s inssvc.Stress, ob *evid.Obs) error {
+	runs := 1
+	if ob.Witness {
+		runs = 20 // free-running schedules are not replayable: try the case repeatedly
+	}
+	for i := 0; i < runs; i++ {
+		tr := inssvc.RunStress(s)
+		a := inssvc.Analyse(tr)
+		if i == 0 {
+			Classify(a, ob)
+		}
+		if err := CheckBlocks(a); err != nil {
+			return err
+		}
+	}
+	return nil
 }
